@@ -1,4 +1,5 @@
 import builtins
+import contextlib
 import copy
 import copyreg
 import functools
@@ -85,6 +86,29 @@ class _modules_copyable:
                 self.patched_table = False
 
 
+@contextlib.contextmanager
+def under_construction(obj: Any, condition: bool = True):
+    """
+    Lift the frozen guard on `obj` while the library finishes building a private
+    copy of a frozen instance (the same window that `__init__` opens). This is
+    what allows copy-on-write helpers to work on frozen spec-classes: the
+    receiver is never touched, only the copy that is about to be returned.
+    """
+    metadata = getattr(obj, "__spec_class__", None)
+    if (
+        not condition
+        or not (metadata and metadata.frozen)
+        or obj.__dict__.get("__spec_class_initializing__", False)
+    ):
+        yield
+        return
+    obj.__dict__["__spec_class_initializing__"] = True
+    try:
+        yield
+    finally:
+        obj.__dict__.pop("__spec_class_initializing__", None)
+
+
 def mutate_attr(
     obj: Any,
     attr: str,
@@ -123,7 +147,8 @@ def mutate_attr(
             )
 
     # If not inplace, copy before writing new value for attribute
-    if not (inplace or metadata and metadata.do_not_copy):
+    copied = not (inplace or metadata and metadata.do_not_copy)
+    if copied:
         # `value` may be the very object the attribute already holds (e.g.
         # `update_<attr>()` with nothing to update, or a transform returning
         # its input); the copy must then keep its own copy of it rather than
@@ -153,7 +178,8 @@ def mutate_attr(
 
     # Invalidate any caches depending on this attribute
     if not skip_invalidation and metadata and metadata.invalidation_map:
-        invalidate_attrs(obj, attr, metadata.invalidation_map)
+        with under_construction(obj, copied):
+            invalidate_attrs(obj, attr, metadata.invalidation_map)
 
     return obj
 
@@ -294,11 +320,12 @@ def mutate_value(
         if not mutate_safe:
             value = protect_via_deepcopy(value)
             mutate_safe = True
-        for attr, attr_value in attrs.items():
-            if attr in used_attrs:
-                continue
-            if attr_value is not MISSING:
-                setattr(value, attr, attr_value)
+        with under_construction(value, not inplace):
+            for attr, attr_value in attrs.items():
+                if attr in used_attrs:
+                    continue
+                if attr_value is not MISSING:
+                    setattr(value, attr, attr_value)
     elif attrs:
         raise ValueError("Cannot use attrs on a missing value without a constructor.")
 
@@ -310,10 +337,11 @@ def mutate_value(
     if attr_transforms:
         if not mutate_safe:
             value = protect_via_deepcopy(value)
-        for attr, attr_transform in attr_transforms.items():
-            transformed_value = attr_transform(getattr(value, attr, MISSING))
-            if transformed_value is not MISSING:
-                setattr(value, attr, transformed_value)
+        with under_construction(value, not inplace):
+            for attr, attr_transform in attr_transforms.items():
+                transformed_value = attr_transform(getattr(value, attr, MISSING))
+                if transformed_value is not MISSING:
+                    setattr(value, attr, transformed_value)
 
     return value
 
